@@ -178,14 +178,15 @@ Theorem C11_graph_effect_summaries_are_sound : forall (g : graph) (vf : vfn) (st
 Proof. exact graph_effects_sound. Qed.
 
 (* the graphs of the library: a Delaunay / Voronoi mesh with its mapper and valued mapper; FitImaging -> Imaging -> inversion ->
-   mapper; the derivation chain ds -> apply_over_sampling -> apply_noise_scaling; Interferometer -> inversion through the factory.
+   mapper (mapping and w-tilde formalisms); the derivation chains ds -> apply_mask / apply_over_sampling -> apply_noise_scaling;
+   Interferometer -> inversion through the factory.
    Each satisfies the discipline, hence is pure for every read order and every body function *)
 Theorem C11_library_graphs_disciplined :
   gdisc (g_mesh false false) = true /\ gdisc (g_mesh true false) = true /\ gdisc g_fit = true /\
-  gdisc (g_chain false) = true /\ gdisc g_interf = true.
+  gdisc (g_chain false) = true /\ gdisc g_interf = true /\ gdisc g_wtilde = true.
 Proof. exact instances_disciplined. Qed.
 Theorem C11_library_graph_reads_pure : forall (k : nat) (vf : vfn) (reads : list nat),
-  (k < 5)%nat -> gobservations (ginstance k) vf reads = map (gspec (ginstance k) vf) reads.
+  (k < 6)%nat -> gobservations (ginstance k) vf reads = map (gspec (ginstance k) vf) reads.
 Proof. exact instance_reads_pure. Qed.
 
 (* the two defect classes leave the discipline and are order dependent: `voronoi_pixel_areas` as a cached_property (its consumers
